@@ -61,10 +61,10 @@ class Cache:
         return m
 
 
-def run_impl(meth, args, answers):
+def run_impl(meth, args, answers, seq=list):
     from pymemcache.fallback import FallbackClient
     log = []
-    fc = FallbackClient([Cache(i, log, a) for i, a in enumerate(answers)])
+    fc = FallbackClient(seq(Cache(i, log, a) for i, a in enumerate(answers)))     # the caches as a list or as a tuple
     try:
         r = ("o", getattr(fc, meth)(*args))
     except ValueError:
@@ -137,8 +137,11 @@ def search(ctx):
     """The property's clauses evaluated on the implementation's call log."""
     found = []
     cases = all_cases(ctx)
-    for meth, args, answers in cases:
-        r, log = run_impl(meth, args, answers)
+    for meth, args, answers, seq in [c + (list,) for c in cases] + [c + (tuple,) for c in cases[::3]]:
+        try:
+            r, log = run_impl(meth, args, answers, seq)
+        except Exception as e:  # noqa -- anything but the caches' own scripted ValueError
+            r, log = ("e", "%s: %s" % (type(e).__name__, e)), []
         why = None
         if meth in READS:
             hit = (lambda v: v is not None) if meth in ("get", "gets") else (lambda v: bool(v))
@@ -159,8 +162,8 @@ def search(ctx):
             if log != [(0, METHS.index(meth), list(completed(meth, args)))]:
                 why = "a mutating operation must be exactly one call on the first cache with the caller's arguments"
         if why:
-            found.append({"clause": why, "input": {"method": meth, "args": repr(args), "cache_answers": repr(answers)},
-                          "observed": {"result": repr(r), "log": repr(log)}, "size": len(answers), "case": repr((meth, args, answers))})
+            found.append({"clause": why, "input": {"method": meth, "args": repr(args), "cache_answers": repr(answers), "caches_given_as": seq.__name__},
+                          "observed": {"result": repr(r), "log": repr(log)}, "size": len(answers), "case": repr((meth, args, answers, seq.__name__))})
     # histories on ONE FallbackClient: a read answered by a fallback cache, then each mutating operation on the same key - what was
     # read, and from where, changes nothing about where writes go
     from pymemcache.fallback import FallbackClient
@@ -196,7 +199,14 @@ def replay(ctx, obj):
     v = obj.get("violation")
     if not v:
         return None
-    c = eval(v["case"])
-    r, log = run_impl(*c)
+    if not v.get("case"):
+        return None
+    c = list(eval(v["case"]))
+    if len(c) == 4:
+        c[3] = {"list": list, "tuple": tuple}[c[3]]
+    try:
+        r, log = run_impl(*c)
+    except Exception as e:  # noqa
+        r, log = ("e", "%s: %s" % (type(e).__name__, e)), []
     print(c, "->", r, log, "| recorded", v["observed"])
     return {"result": repr(r), "log": repr(log)} == v["observed"]
